@@ -2649,6 +2649,10 @@ func (s *Server) serveConnCounted(c net.Conn, countConcurrency bool) error {
 		ctx.connRequestNum = connRequestNum
 		ctx.time = time.Now()
 
+		// Remember the method now: after a timeout the request stays with the
+		// old ctx, which the timed out handler may still be using.
+		isHead := ctx.IsHead()
+
 		// If a client denies a request the handler should not be called
 		if continueReadingRequest {
 			verifPoint("srv.beforeHandler")
@@ -2667,6 +2671,9 @@ func (s *Server) serveConnCounted(c net.Conn, countConcurrency bool) error {
 			// Acquire a new ctx because the old one will still be in use by the timeout out handler.
 			ctx = s.acquireCtx(c)
 			timeoutResponse.CopyTo(&ctx.Response)
+			if isHead {
+				ctx.Response.SkipBody = true
+			}
 		}
 
 		if ctx.IsHead() {
